@@ -176,7 +176,7 @@ class Run:
 
     def finish(self, replay_confirm=True):
         if self._pool is not None:
-            self._pool.close()
+            self._pool.terminate()     # workers may hold leaked non-daemon library threads: never wait for them
             self._pool.join()
             self._pool = None
         known, fixed = load_known(self.prop)
